@@ -377,6 +377,9 @@ func RunEdges(args []string) int {
 				fmt.Fprintf(os.Stderr, "cannot parse edge: %v: %.300s\n", jerr, s)
 				return 2
 			}
+			if failures >= 25 {
+				continue // enough evidence; skip the remaining edges
+			}
 			if !do(e) {
 				pending = append(pending, e)
 			}
